@@ -97,7 +97,7 @@ def run(ctx):
 
     def long_sessions():
         # binding T, step 1: long random sessions recorded from the real code (model-independent driver)
-        return ctx.go_test("x01", "TestLong$", env={"VERIF_TRACE_OUT": tp, "VERIF_X01_LONG": ctx.pick(10, 80)}, timeout=1500)
+        return ctx.go_test("x01", "TestLong$", env={"VERIF_TRACE_OUT": tp, "VERIF_X01_LONG": ctx.pick(25, 300)}, timeout=1500)
 
     # phase A: everything that does not depend on anything else, in parallel (JVM start-up dominates under load)
     jobs = [("long", long_sessions)] + [("gen:" + g[0], gen(*g)) for g in gens]
@@ -149,8 +149,8 @@ def run(ctx):
         return ctx.go_test("x01", "TestReplay$", cases=cases, timeout=2400, env={"VERIF_X01_PAR": ctx.pick(4, 6)})
 
     def validate():
-        for i in range(0, len(traces), 40):
-            ctx.validate_traces("SSHSession_Trace", traces[i:i + 40], timeout=900, max_rejects=3)
+        for i in range(0, len(traces), 100):
+            ctx.validate_traces("SSHSession_Trace", traces[i:i + 100], timeout=900, max_rejects=3)
 
     res2 = _par(ctx, [("replay", replay), ("validate", validate)] + ([] if q else [("mcs", big_mcs)]))
     log_mcs()
